@@ -27,6 +27,13 @@ Bounded-exhaustive enumeration (engine E4) of index contents, plus exhaustive si
                     read-tree --prefix
         G.wt        real work trees: git add (stat data), add -N, symlink, gitlink, write-tree,
                     untracked cache, resolve-undo, sparse-checkout (no-cone, cone, cone + sparse index)
+  E   multi-step histories ("edit after read"): an index of the conflict / flag families, built by the
+      reference writer, by C git and by dulwich, is read with Index(path); every applicable edit of a
+      menu is applied through the public API *re-using the entry objects that came out of the file*
+      (resolve to this/other/ancestor, swap, rotate, re-wrap, promote a stage entry to another path
+      (copy/move), drop/shift/duplicate slots in place, plain entry + foreign stage entry -> new
+      conflict, set/clear skip-worktree and assume-valid, copy/rename/delete, fresh replacement);
+      the written file must be the intended content (reference parser, C git, dulwich re-read).
   D   E5: every truncation, single-bit flip and byte set to 00/FF/+1/-1 of small written indexes
       (checksummed, i.e. not skipHash) must make Index(path) raise.
 
@@ -953,6 +960,333 @@ def case_git_worktree(acc: Acc, scenario, version):
     shutil.rmtree(d, ignore_errors=True)
 
 
+# --------------------------------------------------------------------------- E: edit after read
+
+
+SLOTS = {"ancestor": 1, "this": 2, "other": 3}
+
+
+def _clone(e, name=None, stage=None, valid=None, xflags=None):
+    return R.Entry(e.name if name is None else name, ctime=e.ctime, mtime=e.mtime, dev=e.dev, ino=e.ino, mode=e.mode, uid=e.uid,
+                   gid=e.gid, size=e.size, sha=e.sha, stage=e.stage if stage is None else stage,
+                   assume_valid=e.assume_valid if valid is None else valid, xflags=e.xflags if xflags is None else xflags)
+
+
+def _model_of(entries):
+    m = {}
+    for e in entries:
+        m.setdefault(e.name, {})[e.stage] = e
+    return m
+
+
+def _model_flat(m):
+    out = [e for st in m.values() for e in st.values()]
+    out.sort(key=lambda e: R.sort_key(e.name, e.stage))
+    return out
+
+
+def _git_build(path, version, specs):
+    """The index described by specs, written by C git (stat data is zero, ids are git's)."""
+    repo = _gitrepo()
+    env = {"GIT_INDEX_FILE": path}
+    items = [(_fields(s)["mode"], s[1], s[0]) for s in specs]
+    git(["update-index", "--index-version", str(version), "-z", "--index-info"], cwd=repo, env=env, input=_info_lines(items))
+    for flag, pred in (("--assume-unchanged", lambda f: f["valid"]), ("--skip-worktree", lambda f: f["xflags"] & 0x4000)):
+        names = [s[0] for s in specs if s[1] == 0 and pred(_fields(s))]
+        if names:
+            git(["update-index", flag, "-z", "--stdin"], cwd=repo, env=env, input=b"".join(n + b"\0" for n in names))
+
+
+def _apply_edit(I, idx, m, edit):
+    """Apply one edit through dulwich's public API and, in parallel, to the model
+    (name -> {stage: reference Entry}).  Values are entry objects obtained from the parsed index."""
+    op = edit[0]
+    CIE = I.ConflictedIndexEntry
+    if op == "noop":
+        return
+    if op == "resolve":  # idx[p] = conflict.<slot>
+        _, p, slot = edit
+        idx[p] = getattr(idx[p], slot)
+        m[p] = {0: _clone(m[p][SLOTS[slot]], stage=0)}
+    elif op == "swap":  # this <-> other
+        _, p = edit
+        c = idx[p]
+        idx[p] = CIE(ancestor=c.ancestor, this=c.other, other=c.this)
+        old = m[p]
+        m[p] = {st2: _clone(old[st1], stage=st2) for st1, st2 in ((1, 1), (3, 2), (2, 3)) if st1 in old}
+    elif op == "rotate":  # ancestor<-other, this<-ancestor, other<-this
+        _, p = edit
+        c = idx[p]
+        idx[p] = CIE(ancestor=c.other, this=c.ancestor, other=c.this)
+        old = m[p]
+        m[p] = {st2: _clone(old[st1], stage=st2) for st1, st2 in ((3, 1), (1, 2), (2, 3)) if st1 in old}
+    elif op == "rewrap":  # the same entry objects inside a new ConflictedIndexEntry
+        _, p = edit
+        c = idx[p]
+        idx[p] = CIE(ancestor=c.ancestor, this=c.this, other=c.other)
+    elif op == "promote-copy":  # a stage entry also becomes the plain entry of another path
+        _, p, slot, q = edit
+        idx[q] = getattr(idx[p], slot)
+        m[q] = {0: _clone(m[p][SLOTS[slot]], name=q, stage=0)}
+    elif op == "promote-move":
+        _, p, slot, q = edit
+        idx[q] = getattr(idx[p], slot)
+        del idx[p]
+        m[q] = {0: _clone(m[p][SLOTS[slot]], name=q, stage=0)}
+        del m[p]
+    elif op == "drop":  # conflict.<slot> = None, in place
+        _, p, slot = edit
+        setattr(idx[p], slot, None)
+        del m[p][SLOTS[slot]]
+    elif op == "shift":  # move an entry object to another slot, in place
+        _, p, src, dst = edit
+        c = idx[p]
+        setattr(c, dst, getattr(c, src))
+        setattr(c, src, None)
+        m[p][SLOTS[dst]] = _clone(m[p][SLOTS[src]], stage=SLOTS[dst])
+        del m[p][SLOTS[src]]
+    elif op == "dup":  # the same entry object in two slots
+        _, p, src, dst = edit
+        c = idx[p]
+        setattr(c, dst, getattr(c, src))
+        m[p][SLOTS[dst]] = _clone(m[p][SLOTS[src]], stage=SLOTS[dst])
+    elif op == "conflict-from":  # a plain entry becomes "this", a stage entry of another path becomes "other"
+        _, r, p, slot = edit
+        n = idx[r]
+        idx[r] = CIE(ancestor=None, this=n, other=getattr(idx[p], slot))
+        m[r] = {2: _clone(m[r][0], stage=2), 3: _clone(m[p][SLOTS[slot]], name=r, stage=3)}
+    elif op == "self-conflict":  # one plain entry object as ancestor and this
+        _, r = edit
+        n = idx[r]
+        idx[r] = CIE(ancestor=n, this=n, other=None)
+        m[r] = {1: _clone(m[r][0], stage=1), 2: _clone(m[r][0], stage=2)}
+    elif op == "skip":  # set_skip_worktree on a plain entry
+        _, r, on = edit
+        idx[r].set_skip_worktree(on)
+        e = m[r][0]
+        m[r][0] = _clone(e, xflags=(e.xflags | 0x4000) if on else (e.xflags & ~0x4000))
+    elif op == "skip-stage":  # set_skip_worktree on a stage entry
+        _, p, slot, on = edit
+        getattr(idx[p], slot).set_skip_worktree(on)
+        e = m[p][SLOTS[slot]]
+        m[p][SLOTS[slot]] = _clone(e, xflags=(e.xflags | 0x4000) if on else (e.xflags & ~0x4000))
+    elif op == "valid":  # assume-valid bit through the flags attribute
+        _, r, on = edit
+        e = idx[r]
+        e.flags = (e.flags | I.FLAG_VALID) if on else (e.flags & ~I.FLAG_VALID)
+        m[r][0] = _clone(m[r][0], valid=bool(on))
+    elif op == "copy":  # the same entry object under two paths
+        _, r, q = edit
+        idx[q] = idx[r]
+        m[q] = {0: _clone(m[r][0], name=q)}
+    elif op == "rename":
+        _, r, q = edit
+        idx[q] = idx[r]
+        del idx[r]
+        m[q] = {0: _clone(m[r][0], name=q)}
+        del m[r]
+    elif op == "delete":
+        _, r = edit
+        del idx[r]
+        del m[r]
+    elif op == "replace-fresh":  # a new IndexEntry object (no re-use): the control
+        _, r = edit
+        spec = S(r + b"?", 0)
+        tmp = {}
+        _dulwich_fill(tmp, [spec])
+        idx[r] = tmp[r + b"?"]
+        m[r] = {0: _clone(_expected_entry(spec), name=r)}
+    else:
+        raise HarnessError("unknown edit %r" % (edit,))
+
+
+def _fmt_edit(edit):
+    return "(" + ", ".join(_short(x, 16) if isinstance(x, (bytes, bytearray)) else str(x) for x in edit) + ")"
+
+
+def case_edit(acc: Acc, source, version, specs, edit):
+    """Multi-step history: an index (built by the reference writer / C git / dulwich) is read with
+    Index(path), edited through the public API re-using the entry objects that came out of the
+    file, written, and compared with the intended content (reference parser, C git, re-read)."""
+    I = _D()
+    specs = [(bytes(n), st, dict(f)) for n, st, f in specs]
+    edit = tuple(bytes(x) if isinstance(x, (bytes, bytearray)) else x for x in edit)
+    me = rp(case_edit, source, version, specs, list(edit))
+    summ = "%s-built v%d index %s, read, edit %s, write" % (source, version, _fmt_specs(specs), _fmt_edit(edit))
+    path = _case_file("e.index")
+    _rm(path)
+    acc.count("E_cases")
+    try:
+        _case_edit(acc, I, source, version, specs, edit, me, summ, path)
+    finally:
+        _rm(path)
+
+
+def _case_edit(acc, I, source, version, specs, edit, me, summ, path):
+    # ---- step 1: the initial file
+    if source == "ref":
+        with open(path, "wb") as f:
+            f.write(R.build(version, _expected(specs)))
+    elif source == "git":
+        _git_build(path, version, specs)
+    elif source == "dulwich":
+        w = I.Index(path, read=False, version=version)
+        _dulwich_fill(w, specs)
+        w.write()
+    else:
+        raise HarnessError(source)
+    with open(path, "rb") as f:
+        data0 = f.read()
+    try:
+        p0 = R.parse(data0)
+    except R.IndexFormatError:
+        p0 = None
+    if p0 is None or not p0.clean:
+        if source == "dulwich":
+            acc.outcome("E:initial-file-wrong(reported-by-W)")
+            return
+        raise HarnessError("reference parser rejects a %s-built index: %s" % (source, summ))
+    if source == "git":
+        oracle_agree(p0, path, "git-built " + summ)
+    # ---- step 2: read
+    r = dul_read(path)
+    if r[0] == "exc" or _entry_lists_diff(p0.entries, r[2]):
+        acc.outcome("E:initial-read-wrong(reported-by-R/G)")
+        return
+    idx = r[1]
+    m = _model_of(p0.entries)
+    # ---- step 3: edit, re-using the parsed entry objects
+    try:
+        _apply_edit(I, idx, m, edit)
+    except HarnessError:
+        raise
+    except Exception as e:
+        if _exc_site(e) == "?":
+            raise HarnessError("edit %r not applicable: %r (%s)" % (edit, e, summ))
+        acc.violation("edit:%s:raises-%s@%s" % (_exc_site(e), _exc_name(e), edit[0]),
+                      "editing an index that was just read raises %r; %s" % (e, summ), me)
+        return
+    intended = _model_flat(m)
+    exp_version = p0.version
+    if exp_version < 3 and any(e.xflags for e in intended):
+        exp_version = 3
+    # ---- step 4: write
+    try:
+        idx.write()
+    except Exception as e:
+        acc.outcome("E:write-raises")
+        acc.violation("write:%s:raises-%s@entry-reused-after-read" % (_exc_site(e), _exc_name(e)),
+                      "Index.write() after an edit raises %s: %s; %s" % (_exc_name(e), str(e)[:100], summ), me)
+        return
+    with open(path, "rb") as f:
+        data = f.read()
+    p2 = perr = None
+    try:
+        p2 = R.parse(data)
+    except R.IndexFormatError as e:
+        perr = e
+    nostage = lambda es: sorted((e.name,) + e.key()[2:11] + (e.assume_valid, e.xflags) for e in es)
+    bad = key = None
+    if p2 is None:
+        bad = "reference parser cannot decode the file: %s" % perr
+    elif _entry_lists_diff(intended, p2.entries) or p2.problems or p2.version != exp_version or p2.trailer_kind != "sha":
+        d = _entry_lists_diff(intended, p2.entries)
+        bad = "entries differ in %s" % d[0] if d else "problems %r version %d trailer %s" % (p2.codes(), p2.version, p2.trailer_kind)
+        if d and nostage(intended) == nostage(p2.entries):
+            # every entry is there with all its fields, only filed under another stage
+            key = "write:IndexEntry.serialize:stage-wrong@entry-reused-after-read"
+            bad = "entries are written under the wrong stage: intended [%s], file has [%s]" % (
+                ", ".join("%s#%d" % (_short(e.name, 12), e.stage) for e in intended), ", ".join("%s#%d" % (_short(e.name, 12), e.stage) for e in p2.entries))
+        elif not p2.order_ok and sorted(e.key() for e in p2.entries) == sorted(e.key() for e in intended):
+            key = "write:write_index_dict:entries-not-in-git-order"
+    if bad:
+        if key is None:
+            canon = R.build(exp_version, intended)
+            lab, ent = diagnose_written(data, canon)
+            if lab == "identical":
+                raise HarnessError("written file equals the canonical bytes but was judged bad: %s (%s)" % (bad, summ))
+            key = "write:%s:%s-wrong%s@entry-reused-after-read" % (_WRITE_SITE.get(lab, "Index.write"), lab, _write_class(lab, ent, exp_version, {}))
+            bad += "; first field differing from the canonical serialisation of the intended content: %s" % lab
+        gst = git_list(path)
+        gtxt = "C git: " + ("lists [%s]" % ", ".join("%s#%d" % (_short(t[0], 12), t[1]) for t in gst[1][:8]) if gst[0] == "ok" else gst[1])
+        rr = dul_read(path)
+        rtxt = "raises %s" % rr[1] if rr[0] == "exc" else "[%s]" % ", ".join("%s#%d" % (_short(e.name, 12), e.stage) for e in rr[2][:8])
+        acc.outcome("E:%s:written-file:VIOLATION" % edit[0])
+        acc.violation(key, "read + edit + write produced a wrong index: %s; %s; dulwich re-read: %s; %s" % (bad, gtxt, rtxt, summ), me)
+        return
+    if p2.clean:
+        oracle_agree(p2, path, "edited " + summ)
+    else:
+        acc.outcome("pedantic:" + ",".join(sorted(set(c for c, _ in p2.pedantic))))
+    # ---- step 5: dulwich reads the edited file back
+    r = dul_read(path)
+    if r[0] == "exc" or _entry_lists_diff(intended, r[2]):
+        d = diagnose_read(data, p2)
+        key = "read:" + d if d else ("read:Index.read:raises-%s" % r[1] if r[0] == "exc" else "read:Index.read:" + _assembly_predicate(intended, r[2]))
+        acc.outcome("E:%s:reread:VIOLATION" % edit[0])
+        acc.violation(key, "the edited index is not read back as intended (%s); %s" % (
+            "raises %s in %s" % r[1:3] if r[0] == "exc" else _entry_lists_diff(intended, r[2])[0], summ), me)
+        return
+    acc.outcome("E:%s:%s:%s:ok" % (edit[0], source, "v%d->v%d" % (p0.version, p2.version) if p0.version != p2.version else "same-version"))
+
+
+def _edits_for(specs):
+    """The complete edit menu applicable to an index with these entries."""
+    by = {}
+    for n, st, f in specs:
+        by.setdefault(n, {})[st] = f
+    inv = {v: k for k, v in SLOTS.items()}
+    conflicted = sorted(n for n, st in by.items() if 0 not in st)
+    plain = sorted(n for n, st in by.items() if 0 in st)
+    out = [("noop",)]
+    for p in conflicted:
+        have = sorted(by[p])
+        slots = [inv[s] for s in have]
+        out += [("swap", p), ("rotate", p), ("rewrap", p)]
+        for s in slots:
+            out += [("resolve", p, s), ("promote-copy", p, s, p + b".r"), ("promote-move", p, s, b"0new"), ("promote-move", p, s, b"zzz"),
+                    ("skip-stage", p, s, True), ("skip-stage", p, s, False)]
+            if len(slots) > 1:
+                out.append(("drop", p, s))
+            for d in SLOTS:
+                if d != s:
+                    out.append(("shift", p, s, d))
+                    out.append(("dup", p, s, d))
+            for r in plain[:2]:
+                out.append(("conflict-from", r, p, s))
+    for r in plain:
+        out += [("skip", r, True), ("skip", r, False), ("valid", r, True), ("valid", r, False), ("copy", r, r + b".c"), ("rename", r, b"0new"),
+                ("rename", r, b"zzz"), ("delete", r), ("self-conflict", r), ("replace-fresh", r)]
+    return out
+
+
+def _e_edit(q):
+    out = []
+    stage_sets = [s for k in (1, 2, 3) for s in itertools.combinations((1, 2, 3), k)]
+    bases = []
+    # the conflict family: every stage subset x path x {alone, with neighbours}
+    for p in ([b"a", MID[1]] if q else [b"a", b"a/b", MID[1], LONG[2]]):
+        for ss in stage_sets:
+            for nb in ((), (b"0", p + b"!", b"zy")):
+                bases.append([S(p, st) for st in ss] + [S(n) for n in nb])
+    # flag-carrying entries (plain and stage entries)
+    combos = [(v, x) for v in (False, True) for x in (0, 0x4000, 0x2000, 0x6000)]
+    for v1, x1 in combos:
+        bases.append([S(b"a", valid=v1, xflags=x1), S(b"b/c", valid=True, xflags=0x2000)])
+        bases.append([S(b"c", 1, valid=v1, xflags=x1), S(b"c", 2), S(b"c", 3, xflags=x1), S(b"d", valid=v1)])
+    for specs in bases:
+        has_x = any(s[2].get("xflags") for s in specs)
+        # C git plumbing can set assume-unchanged / skip-worktree on merged entries only, never intent-to-add
+        git_ok = all(not s[2].get("xflags", 0) & 0x2000 and (s[1] == 0 or not (s[2].get("xflags") or s[2].get("valid"))) for s in specs)
+        for ver in ((3, 4) if has_x else (2, 4)):
+            for edit in _edits_for(specs):
+                out.append(("ref", ver, specs, edit))
+                out.append(("dulwich", ver, specs, edit))
+                if git_ok and (not q or ver == 4 or len(specs) <= 3):
+                    out.append(("git", ver, specs, edit))
+    return out
+
+
 # --------------------------------------------------------------------------- D: E5 damage
 
 PFX = b"l/" + b"p" * (0xFFD - 2)  # 0xFFD-byte common prefix
@@ -1298,6 +1632,9 @@ def work(task):
     elif kind == "GW":
         for scenario, version in items:
             case_git_worktree(acc, scenario, version)
+    elif kind == "E":
+        for source, version, specs, edit in items:
+            case_edit(acc, source, version, specs, edit)
     elif kind == "D":
         for base_id, descs in items:
             for d in descs:
@@ -1328,6 +1665,7 @@ def run(ctx):
     add("GI", "G.info", _g_info(q), J)
     add("GT", "G.tree", _g_tree(q), J)
     add("GW", "G.wt", _g_wt(q), ctx.jobs * 2)
+    add("E", "E.edit", _e_edit(q), J * 2)
     dcount = {}
     for base_id, descs in _d_tasks(q):
         fam["D." + base_id] = len(descs)
@@ -1354,7 +1692,8 @@ def run(ctx):
             "modes %r, %d time values (int/float/(s,ns)). R: the same name subsets serialised by the reference writer (v2, v4 maximal "
             "prefix, v4 no prefix) and %d extension lists x entry sets x versions x sha/null trailer. G: C git update-index --index-info/"
             "--cacheinfo (versions 2,3,4, stages, flags), read-tree incl. all 27 three-way states of a path, real work trees incl. "
-            "sparse-checkout. D: every truncation, bit flip and byte:=00/FF/+1/-1 of %d small dulwich-written indexes. "
+            "sparse-checkout. E: read -> one edit from a %d-operation menu re-using parsed entry objects -> write, for every stage subset x paths x "
+            "neighbours and 16 flag-carrying indexes x versions x {reference-, git-, dulwich-built}. D: every truncation, bit flip and byte:=00/FF/+1/-1 of %d small dulwich-written indexes. "
             "distinct_nontrivial = distinct structural classes (family x version x entry count x name-length class x strip class x "
             "stages x flags x extensions x trailer) observed." % (
                 len(SHORT + MID + LONG), [hex(v) for v in INT_VALUES], [oct(m) for m in MODES], len(TIMES), len(EXT_LISTS),
